@@ -36,7 +36,7 @@ struct LenpHarness : Harness {
     std::vector<std::string> props() const override { return {"C13"}; }
     std::vector<std::string> probes(const std::string &) const override {
         return {"varint_prefix_1", "varint_prefix_2", "varint_prefix_3plus", "buffer_with_offset_and_free_space", "chunk_list_with_empty_chunk", "chunk_list_active_nonzero",
-                "frame_split_inside_prefix", "destination_one_octet_too_small", "over_maximum_refused", "total_beyond_ssize_max_refused", "second_task_framed_during_a_sink_call", "varint_through_header_wrapper", "source_lends_its_window", "prefix_declares_more_than_any_destination", "unmaterialised_length_accepted", "unmaterialised_length_through_buffer", "unmaterialised_length_through_buffer_n", "unmaterialised_length_through_chunks", "kind_maximum_accepted", "sink_error_mid_frame", "buffer_n_less_than_rest",
+                "frame_split_inside_prefix", "destination_one_octet_too_small", "over_maximum_refused", "total_beyond_ssize_max_refused", "second_task_framed_during_a_sink_call", "second_task_decoded_during_a_source_call", "varint_through_header_wrapper", "source_lends_its_window", "prefix_declares_more_than_any_destination", "unmaterialised_length_accepted", "unmaterialised_length_through_buffer", "unmaterialised_length_through_buffer_n", "unmaterialised_length_through_chunks", "kind_maximum_accepted", "sink_error_mid_frame", "buffer_n_less_than_rest",
                 "n_beyond_unread_refused", "fragmented_decode", "append_behind_existing_content", "multi_frame_stream_fragmented", "source_interruption_during_decode"};
     }
     uint64_t runs(const std::string &, const Tier &t) const override { return t.thorough() ? 10000000 : 1200000; }
@@ -126,6 +126,7 @@ struct LenpHarness : Harness {
               for (int q = 0; q < n; ++q) { switch (r.below(6)) { case 0: s.push(0); break; case 1: s.push(-EINTR); break; case 2: s.push(-EAGAIN); break; default: s.push((long long)r.range(1, 5)); } }
               o["ks"] = s; }
             if (r.chance(1, 8)) { Json e = Json::arr(); e.push((long long)r.range(0, len + 4)); e.push(HARD_ERRORS[r.below(N_HARD_ERRORS)]); o["kerr"] = e; }
+            if (!enc && r.chance(1, 5)) { Json ij = Json::arr(); ij.push((long long)r.below(12)); ij.push((long long)r.below(6)); ij.push((long long)r.below(128)); o["dintrude"] = ij; }
             if (enc && r.chance(1, 5)) { Json ij = Json::arr(); ij.push((long long)r.below(4)); ij.push((long long)r.below(4)); ij.push((long long)r.below(6)); ij.push((long long)r.range(1, 40)); o["intrude"] = ij; }
             ops.push(o);
         }
@@ -448,6 +449,24 @@ struct LenpHarness : Harness {
         if (!src.script.e.empty()) { size_t pl = ref_prefix(k, payloads[0].size()).size(); if (pl > 1 && src.script.e[0] >= 1 && src.script.e[0] < (int64_t)pl) COUNT("probe.frame_split_inside_prefix"); }
         for (auto v : src.script.e) if (v < 1) { COUNT("probe.source_interruption_during_decode"); break; }
         Source source; src.bind(&source);
+        // optionally a second task decodes a frame of its own while this op's source driver is being called
+        struct DIntruder { Ctx *c; int kind; size_t len, oi; } dintr{&c, 0, 0, oi};
+        if (o.has("dintrude")) {
+            const Json &ij = o.get("dintrude");
+            src.intrude_at = ij.ati(0, 0) & 31; dintr.kind = (int)(((ij.ati(1, 0) % 6) + 6) % 6); dintr.len = (size_t)(1 + (ij.ati(2, 1) & 127));
+            src.intruder_arg = &dintr;
+            src.intruder = [](void *a) {
+                DIntruder &I = *(DIntruder *)a; Ctx &cc = *I.c; COUNT("probe.second_task_decoded_during_a_source_call");
+                size_t L = I.len; if ((uint64_t)L > kind_max(I.kind)) L = (size_t)kind_max(I.kind);
+                SimSource s2; s2.c = &cc; s2.data = ref_prefix(I.kind, L); for (size_t j = 0; j < L; ++j) s2.data.push_back(pay(I.oi * 17 + 5, j));
+                s2.data.push_back(0x99);   // something behind the frame that has to stay in the stream
+                Source so2; s2.bind(&so2);
+                GuardedBlock dst(L);
+                ssize_t rc = flenp_memory_from_source((LengthPrefixKind)I.kind, &so2, dst.p, L);
+                if (rc != (ssize_t)L || !bytes_eq(dst.p, s2.data.data() + (s2.data.size() - 1 - L), L) || s2.pos != s2.data.size() - 1 || !dst.unchanged_outside(0, L))
+                    cc.fail("intruder.decode", "a frame of %zu octets (kind %d) decoded while another decoder's source call was in progress came out wrong (rc %zd, %zu octets taken from the stream)", L, I.kind, rc, s2.pos);
+            };
+        }
         if (o.has("gbwin") && (ep == "to_sink" || ep == "stream")) { int64_t wv = o.geti("gbwin"); if (wv >= 1 && wv <= 4096) { src.lend(&source, (size_t)wv); COUNT("probe.source_lends_its_window"); } }
         const uint64_t dbudget = 8 * (src.data.size() + src.script.e.size() + snk.script.e.size()) + 256;
 
